@@ -384,4 +384,60 @@ theorem gk_c64_array_integer_stage_partial {b : RNSBase} (hb : b.WF) {cc slots n
       gkStageRaw_eq, e, ne_eq, not_true_eq_false, if_false]
     cases nttP d' (slots * 2) <;> rfl
 
+theorem gk_fillL_length (l : List Nat) (v : Nat) : (fillL l v).length = l.length := by unfold fillL; simp
+
+/-- INTEGER STAGE of the generated `encode_internal_f64_polynomial`, ≤ 64-bit and ≤ 128-bit paths: `nvalues ≤ N = 2·slots` coefficients;
+    coefficient i < nvalues is the model's `coeffToRns base (mb + 1) c_i` at i + j·N, every other position of the (zero-filled) buffer is 0 -/
+theorem gk_f64_polynomial_integer_stage_partial {b : RNSBase} (hb : b.WF) {cc slots nvalues total_bits mb : Nat}
+    (hcc : slots * 2 = cc) (hsz : cc * b.base.toList.length < 2^64) (hv : nvalues ≤ cc)
+    {cb : List Nat} {rc : List Int} (hcb : cb.length = nvalues) (hrc : rc.length = nvalues)
+    (hmag : ∀ i (h1 : i < cb.length) (h2 : i < rc.length), rc[i].natAbs ≤ 2^cb[i])
+    (hm : maxAll cb = .ok mb) (hfit : mb + 1 < total_bits) (hsmall : mb + 1 ≤ 128)
+    (decompose : List Nat → R (List Nat)) (nttP : List Nat → Nat → R (List Nat)) (dest : List Nat) :
+    ∃ d', d'.length = cc * b.size ∧
+      (∀ i (hi : i < rc.length), ∃ rs, coeffToRns b (mb + 1) rc[i] = .ok rs ∧ rs.size = b.size ∧
+         ∀ j, j < b.size → d'[i + j * cc]? = some (rs.getD j 0) ∧ rs.getD j 0 = c12_res rc[i] (b.q j).value) ∧
+      (∀ i j, nvalues ≤ i → i < cc → j < b.size → d'[i + j * cc]? = some 0) ∧
+      encode_internal_f64_polynomial true true nvalues slots true total_bits b.base.toList cc b.base.toList.length cb rc decompose nttP dest
+        = nttP d' cc := by
+  have hk : b.base.toList.length = b.size := by simp [RNSBase.size]
+  have hne : cb ≠ [] := by intro h; rw [h] at hm; simp [maxAll] at hm
+  obtain ⟨mb', hm', hbound⟩ := gk_maxAll_spec hne
+  have : mb' = mb := by rw [hm] at hm'; exact (Except.ok.inj hm').symm
+  subst this
+  have hwf : ∀ j (h : j < b.base.toList.length), b.base.toList[j].WF := by
+    intro j h; rw [gk_base_q h]; exact hb.mwf j (by omega)
+  have hlt : ∀ e, mb' + 1 ≤ e → ∀ i (h : i < rc.length), rc[i].natAbs < 2^e := by
+    intro e he i h
+    exact gk_mag_lt (hmag i (by omega) h) (hbound i (by omega)) he
+  have hpos := hb.pos
+  subst hcc
+  have hcc64 : slots * 2 < 2^64 := by
+    have : slots * 2 ≤ slots * 2 * b.base.toList.length := Nat.le_mul_of_pos_right _ (by omega)
+    omega
+  have hd0 : (fillL (resizeL dest (slots * 2 * b.base.toList.length)) 0).length = slots * 2 * b.base.toList.length := by
+    rw [gk_fillL_length, gk_resizeL_length]
+  obtain ⟨d', e, hl, hcont, hrest⟩ := gkStage_small_spec hwf (n := nvalues) (cc := slots * 2) (bits := mb' + 1) hv hsz
+    (rc := rc) (by omega) hsmall (fun hs i h _ => hlt 64 hs i h) (fun i h _ => hlt 128 hsmall i h) decompose
+    (fillL (resizeL dest (slots * 2 * b.base.toList.length)) 0) hd0
+  refine ⟨d', by rw [hl, hk], ?_, ?_, ?_⟩
+  · intro i hi
+    obtain ⟨rs, e1, e2, e3⟩ := coeffToRns_spec hb (bits := mb' + 1) (c := rc[i]) (fun h => hlt 64 h i hi)
+      (fun _ h => hlt 128 h i hi) (fun h => absurd hsmall (by omega))
+    refine ⟨rs, e1, e2, fun j hj => ⟨?_, e3 j hj⟩⟩
+    have hj' : j < b.base.toList.length := by omega
+    rw [hcont i j hi hj' (by omega), e3 j hj, gk_base_q hj']
+  · intro i j hi1 hi2 hj
+    have hj' : j < b.base.toList.length := by omega
+    rw [hrest _ (by rw [gk_pos_mod hi2]; exact hi1)]
+    have hp := gk_pos_lt hi2 hj'
+    unfold fillL
+    rw [List.getElem?_replicate, if_pos (by rw [gk_resizeL_length]; exact hp)]
+  · rw [gk_f64_polynomial_unfold]
+    have h1 : ¬ nvalues > slots * 2 := by omega
+    have h2 : ¬ mb' + 1 ≥ total_bits := by omega
+    simp only [not_true_eq_false, if_false, h1, gk_ckMul_ok hcc64, gk_ckMul_ok hsz, hm, bind, Except.bind, gk_satAdd_small hsmall, h2,
+      gkStageRaw_eq, e, ne_eq, not_true_eq_false, if_false]
+    cases nttP d' (slots * 2) <;> rfl
+
 end HC
